@@ -11,6 +11,7 @@ import (
 
 	"github.com/RoaringBitmap/roaring"
 	"github.com/akrennmair/updog"
+	"github.com/akrennmair/updog/zzverif/flk"
 	"github.com/akrennmair/updog/zzverif/rt"
 )
 
@@ -63,6 +64,7 @@ type lruWorld struct {
 	cache               *updog.LRUCache
 	bms                 *[4][4]*roaring.Bitmap // [key][class]; shared between worlds: the cache only stores pointers
 	hit, miss, get, put *counter
+	hung                string // a call that panicked or would block forever
 }
 
 func lruBitmap(class int, key uint64) *roaring.Bitmap {
@@ -95,7 +97,13 @@ func newLRUWorld(cap uint64, metrics bool) *lruWorld {
 	return w
 }
 
-func (w *lruWorld) apply(o lruOp) (*roaring.Bitmap, bool) {
+func (w *lruWorld) apply(o lruOp) (bm *roaring.Bitmap, ok bool) {
+	defer func() {
+		if r := recover(); r != nil {
+			w.hung = fmt.Sprintf("%s: %v", o, r)
+			bm, ok = nil, false
+		}
+	}()
 	if o.Get {
 		return w.cache.Get(o.Key)
 	}
@@ -188,6 +196,9 @@ func lruCheckLast(c lruCase) (string, string) {
 	before := [4]int{w.hit.n, w.miss.n, w.get.n, w.put.n}
 	resBefore := lruResident(c.Cap, c.Metrics, prev)
 	bm, found := w.apply(op)
+	if w.hung != "" {
+		return "the call never returns or panics: " + w.hung, ""
+	}
 	after := [4]int{w.hit.n, w.miss.n, w.get.n, w.put.n}
 	resAfter := lruResident(c.Cap, c.Metrics, c.Ops)
 	lastBefore := map[uint64]int{}
@@ -374,6 +385,7 @@ type c07Args struct {
 }
 
 func c07Worker(ctx *rt.Ctx, job *rt.Job) []*rt.Violation {
+	flk.Sequential(true) // single goroutine: a lock of updog or bbolt that cannot be taken now never will be (reported as a hang)
 	var a c07Args
 	job.Decode(&a)
 	alpha := lruAlphabet()
